@@ -548,6 +548,18 @@ class Check:
         return rc
 
 
+def replay_cases():
+    """`./check Cxx --replay <file>`: the case stored in a replay file written by a
+    previous run (None when not replaying).  Use as  cases = vplib.replay_cases() or generate()."""
+    if "--replay" not in sys.argv:
+        return None
+    j = json.load(open(sys.argv[sys.argv.index("--replay") + 1]))
+    rp = j.get("replay", {})
+    if "case" in rp:
+        return [rp["case"]]
+    return None
+
+
 def coq_list(items):
     return "[" + "; ".join(items) + "]"
 
@@ -603,6 +615,11 @@ def correspondence(c, crate, cases, line_of, coq_case_of, preamble, checker, mon
             what, payload = m if isinstance(m, tuple) else (m, {})
             payload = dict(payload)
             payload.update({"harness_input": lines[i], "implementation_output": " ".join(o), "crate": crate})
+            try:
+                json.dumps(case)
+                payload.setdefault("case", case)
+            except (TypeError, ValueError):
+                pass
             c.fail(what, payload)
         t = coq_case_of(case, o)
         if t is not None:
